@@ -122,7 +122,8 @@ def run(chk):
     rng = H.rng_for(chk.seed, 'C01')
     thorough = chk.tier == 'thorough'
     S.proof(chk, 'C01')
-    chk.assumptions += ['the theorem is proved for N = 1 (phi = objective along the segment); for N >= 2 the composition with the evolvent bounds (C07/C08) is not formalised: N = 2, 3 are covered by the search oracle only',
+    chk.assumptions += ['theorems over R: N = 1 (C01_certificate_dimension_one) and N = 2..5 (C01_certificate_dimensions_2_to_5: covering argument in the Hoelder metric composed with the evolvent\'s Hoelder inequality, '
+                        'box containment and density of images); binary64 rounding is not part of the theorems (tied by the lock-step replay); the search oracle covers N = 1..3',
                         'M in the reliability condition is the estimate in force when the last interval was selected; the reading with the final M is refuted (C01_final_M_reading_refuted) and recorded as a known finding']
     bad, errors = S.lockstep(chk, rng, 60 if thorough else 16, make_case=lambda r_: dict(A.random_case(r_, dims=(1, 1, 2)), eps=r_.choice([0.02, 0.01]), iters=400),
                              make_script=lambda r_, c: [('solve',)])
